@@ -57,14 +57,17 @@ prop("C06", "arbitrary broker bytes never crash the client", "exploration",
      "counting reader; oracle = no panic, no single Read request > 268435455, agreement with the reference framing; (3) a connected "
      "client fed a well-formed prefix (C04 sequence), then one constructed malformed packet of each listed class, then junk; oracle = "
      "prefix timeline as in C04, Done() closes, Err() non-nil and equal to the Closed callback's error, documented sentinel found by "
-     "errors.Is. A process death (panic in a library goroutine, runtime out-of-memory under an 8 GB address-space cap) is a violation "
+     "errors.Is; (4) 1..4 requests in flight answered with well-formed but inconsistent acknowledgements (SUBACK with too many / "
+     "too few / reserved codes, other ack kinds carrying a pending id), then close: no goroutine may panic and every call returns. "
+     "A process death (panic in a library goroutine, runtime out-of-memory under an 8 GB address-space cap) is a violation "
      "with the case in flight as replay. Non-trivial = parser input with >= 1 content byte / header with >= 1 length byte / "
      ">= 1 valid packet before the malformed one; distinct = FNV-64 of the case JSON.",
      [dict(tests="^TestVerifC06_Parsers$", checks_quick=30000, checks_thorough=300000, shards=4,
            fuzz=[dict(target="FuzzVerifC06Parsers", time="90s", workers=6)]),
       dict(tests="^TestVerifC06_ReadPacket$", checks_quick=8000, checks_thorough=40000, shards=6, as_limit_gb=8,
            fuzz=[dict(target="FuzzVerifC06ReadPacket", time="90s", workers=4)]),
-      dict(tests="^TestVerifC06_Connected$", checks_quick=4000, checks_thorough=40000, shards=6, as_limit_gb=8)],
+      dict(tests="^TestVerifC06_Connected$", checks_quick=4000, checks_thorough=40000, shards=6, as_limit_gb=8),
+      dict(tests="^TestVerifC06_InFlight$", checks_quick=3000, checks_thorough=30000, shards=4)],
      assumptions=["only the malformed classes listed in the property are asserted to end the link (e.g. an over-long PUBACK body is not)",
                   "ill-formed UTF-8 and encoded surrogates in topics are 'don't care' (accepting or rejecting both pass)"])
 
@@ -84,13 +87,15 @@ prop("C15", "packet identifiers non-zero and unique among outstanding requests",
      "wire: 1..16 concurrent Publish q1/q2 / Subscribe / Unsubscribe callers (some with caller-chosen ids) against a peer that "
      "withholds every acknowledgement until all requests are on the wire, 1..3 rounds; wrap: one request held unacknowledged "
      "while 65534 further requests complete. Oracle: ids non-zero and pairwise distinct among simultaneously outstanding "
-     "requests, caller-chosen id unchanged. Non-trivial = >= 2 goroutines/callers or the window crosses 0xFFFF->1; distinct = "
+     "requests, caller-chosen id unchanged; additionally (ViaRetry) E4 histories with cuts through the ReconnectClient: a "
+     "caller-chosen id is unchanged on every emission (deferred and retransmitted ones included), no emitted id is 0. Non-trivial = >= 2 goroutines/callers or the window crosses 0xFFFF->1; distinct = "
      "FNV-64 of the case JSON.",
      [dict(tests="^TestVerifC15_(Alloc|FullCycle)$", checks_quick=1500, checks_thorough=20000, shards=4),
       dict(tests="^TestVerifC15_Alloc$", race=True, checks_quick=300, checks_thorough=3000, shards=4),
       dict(tests="^TestVerifC15_Wire$", checks_quick=2500, checks_thorough=30000, shards=6),
       dict(tests="^TestVerifC15_Wire$", race=True, checks_quick=300, checks_thorough=3000, shards=2),
-      dict(tests="^TestVerifC15_Wrap$", checks_quick=3, checks_thorough=12, shards=2)],
+      dict(tests="^TestVerifC15_Wrap$", checks_quick=3, checks_thorough=12, shards=2),
+      dict(tests="^TestVerifC15_ViaRetry$", checks_quick=1500, checks_thorough=8000, shards=4)],
      assumptions=["caller-chosen identifiers are distinct from each other and outside the allocator's upcoming window (caller's responsibility)",
                   "known finding D12 (re-use at allocation distance >= 65535) is excluded by construction and reported as KNOWN-FINDING"])
 
